@@ -11,10 +11,13 @@ import (
 	"fmt"
 	"net"
 	"os"
+	"path/filepath"
 	"sort"
 	"strings"
 	"sync"
 	"time"
+
+	hostsfilelib "github.com/kevinburke/hostsfile/lib"
 )
 
 func init() {
@@ -64,6 +67,8 @@ type pipeCase struct {
 var pipeHosts = map[string]string{
 	"origin": "origin.test", "denied": "denied.test", "deniedUpper": "WWW.DENIED.TEST", "deniedWide": "\uff44\uff45\uff4e\uff49\uff45\uff44.test", "deniedDot": "denied.test.", "deniedUpperRule": "Shouty.Test", "denyExcl": "excl.denied.test",
 	"direct": "direct.test", "directUpper": "WWW.DIRECT.TEST", "directExcl": "excl.direct.test",
+	"denyExclCaps": "SAFE.shield.test", "deniedCaps": "Other.SHIELD.test", "directExclCaps": "Secure.corp.test", "directCaps": "Wiki.CORP.test",
+	"lhAliasEarly": "buildhost", "lhAliasFqdn": "buildhost.example.net", "lhAlias6": "ip6-alias.test",
 	"other":  "other.test",
 	"lhName": "localhost", "lhUpper": "LOCALHOST", "lo4": "127.0.0.1", "lo4b": "127.9.9.9", "lo6": "[::1]",
 	"unspec4": "0.0.0.0", "unspec6": "[::]", "unspec6b": "[::0]", "unspec6c": "[0:0:0:0:0:0:0:0]",
@@ -76,8 +81,16 @@ var pipeHosts = map[string]string{
 // pipeDialed: the spelling under which a host is dialled when it is not the one the client used.
 var pipeDialed = map[string]string{"lhWide": "localhost", "lo4Ideo": "127.0.0.1", "deniedWide": "denied.test"}
 
+// pipeHostsFile: the proxy reads the names of the local system from the hosts file when it is created; the harness gives it
+// one with loopback names on either side of "localhost" in the alphabet, a Debian-style 127.0.1.1 line and an IPv6 line.
+func pipeHostsFile(dir string) string {
+	p := dir + "/hosts"
+	os.WriteFile(p, []byte("127.0.0.1 localhost\n127.0.1.1 buildhost.example.net buildhost\n127.0.0.1 zeta-alias.test\n::1 ip6-localhost ip6-alias.test\n10.1.2.3 elsewhere.test\n"), 0o644)
+	return p
+}
+
 func localhostAlias() string {
-	f, err := os.Open("/etc/hosts")
+	f, err := os.Open(hostsfilelib.Location)
 	if err != nil {
 		return ""
 	}
@@ -362,10 +375,10 @@ func pipeFwdCfg(c *pipeCase, host string) fwdCfg {
 		fc.BasicAuth = pipeUser + ":" + pipePass
 	}
 	if c.Cfg.Deny {
-		fc.Deny = []string{`denied\.test$`, `-^excl\.`, `^Shouty\.Test$`}
+		fc.Deny = []string{`denied\.test$`, `-^excl\.`, `^Shouty\.Test$`, `(?i)\.shield\.test$`, `-^safe\.shield\.test$`}
 	}
 	if c.Cfg.Dd {
-		fc.Direct = []string{`direct\.test$`, `-^excl\.`}
+		fc.Direct = []string{`direct\.test$`, `-^excl\.`, `(?i)\.corp\.test$`, `-^secure\.corp\.test$`}
 	}
 	switch c.Cfg.Up.T {
 	case "static":
@@ -484,7 +497,11 @@ type pipeObs struct {
 }
 
 func pipeRun(e *env) {
-	alias := localhostAlias()
+	hostsfilelib.Location = pipeHostsFile(filepath.Dir(os.Args[0])) // next to the harness binary, in the check's work directory
+	alias := "zeta-alias.test"
+	if localhostAlias() == "" {
+		fatal("the harness hosts file was not written")
+	}
 	groups := map[string][]*pipeCase{}
 	var order []string
 	n := 0
